@@ -330,6 +330,81 @@ fn fixed_string_sources_program(rng: &mut Rng) -> Prog {
     Prog { src, expected_stdout: expected, expected_end: End::Ok, key: "fixed-string-sources-program".into() }
 }
 
+/// REDIM with an element type, writes, then REDIM again with and without the AS clause: the element
+/// type stays, the contents start from the default, the bounds are the new ones
+fn redim_program(rng: &mut Rng) -> Prog {
+    let kinds = ["INTEGER", "LONG", "STRING", "FIXED"];
+    let kind = *rng.pick(&kinds);
+    let n = rng.range(2, 6) as usize;
+    let as_clause = match kind {
+        "FIXED" => format!("STRING * {}", n),
+        k => k.to_string(),
+    };
+    let fixk = |t: &str| -> String {
+        let mut x: String = t.chars().take(n).collect();
+        while x.len() < n {
+            x.push(' ');
+        }
+        x
+    };
+    let is_str = kind == "STRING" || kind == "FIXED";
+    let show = |v: &str| -> String {
+        if is_str { format!("[{}]", if kind == "FIXED" { fixk(v) } else { v.to_string() }) } else { int_text(v.parse::<i64>().unwrap_or(0)) }
+    };
+    let default = if is_str { "" } else { "0" };
+    let mut src = String::new();
+    let mut expected = String::new();
+    let (lb1, ub1) = (rng.range(-1, 2) as i32, rng.range(3, 5) as i32);
+    src.push_str(&format!("REDIM A({} TO {}) AS {}\n", lb1, ub1, as_clause));
+    let vals = if is_str { vec!["abcdefgh", "x", "", "hello"] } else { vec!["7", "-3", "120", "0"] };
+    let print_elem = |src: &mut String, idx: i32| {
+        if is_str {
+            src.push_str(&format!("PRINT \"[\"; A({i}); \"]\"; LEN(A({i}))\n", i = idx));
+        } else {
+            src.push_str(&format!("PRINT A({})\n", idx));
+        }
+    };
+    let expect_elem = |expected: &mut String, v: &str| {
+        if is_str {
+            let shown = if kind == "FIXED" { fixk(v) } else { v.to_string() };
+            expected.push_str(&format!("[{}]{}\r\n", shown, int_text(shown.len() as i64)));
+        } else {
+            expected.push_str(&format!("{}\r\n", show(v)));
+        }
+    };
+    let v1 = *rng.pick(&vals);
+    let lit = |v: &str| if is_str { format!("\"{}\"", v) } else { v.to_string() };
+    src.push_str(&format!("A({}) = {}\n", lb1, lit(v1)));
+    print_elem(&mut src, lb1);
+    expect_elem(&mut expected, v1);
+    print_elem(&mut src, ub1);
+    expect_elem(&mut expected, default);
+    // again, with or without the AS clause
+    let (lb2, ub2) = (rng.range(0, 2) as i32, rng.range(3, 7) as i32);
+    if rng.chance(1, 2) {
+        src.push_str(&format!("REDIM A({} TO {})\n", lb2, ub2));
+    } else {
+        src.push_str(&format!("REDIM A({} TO {}) AS {}\n", lb2, ub2, as_clause));
+    }
+    src.push_str("PRINT LBOUND(A); UBOUND(A)\n");
+    expected.push_str(&format!("{}{}\r\n", int_text(lb2 as i64), int_text(ub2 as i64)));
+    print_elem(&mut src, ub2);
+    expect_elem(&mut expected, default);
+    print_elem(&mut src, lb2);
+    expect_elem(&mut expected, default);
+    let v2 = *rng.pick(&vals);
+    let v3 = *rng.pick(&vals);
+    src.push_str(&format!("A({}) = {}\nA({}) = {}\n", lb2, lit(v2), ub2, lit(v3)));
+    print_elem(&mut src, lb2);
+    expect_elem(&mut expected, v2);
+    print_elem(&mut src, ub2);
+    expect_elem(&mut expected, v3);
+    // beyond the new bounds
+    let row = src.lines().count() as u32 + 1;
+    src.push_str(&format!("A({}) = {}\n", ub2 + 1, lit(v1)));
+    Prog { src, expected_stdout: expected, expected_end: End::Err(9, vec![(row, 1)], String::new()), key: "redim-program".into() }
+}
+
 fn record_program(rng: &mut Rng) -> Prog {
     let mut src = String::new();
     let mut expected = String::new();
@@ -473,6 +548,8 @@ pub fn run(args: &Args) {
         run_prog(&p, &mut sum, &mut evaluations);
         let p = fixed_string_sources_program(&mut rng);
         run_prog(&p, &mut sum, &mut evaluations);
+        let p = redim_program(&mut rng);
+        run_prog(&p, &mut sum, &mut evaluations);
         let p = record_program(&mut rng);
         run_prog(&p, &mut sum, &mut evaluations);
     }
@@ -480,6 +557,6 @@ pub fn run(args: &Args) {
     sum.write(
         &args.out,
         evaluations,
-        "unit level: every shape of rank 1-2 with bounds in -2..2 (quick) / -2..3 (thorough), rank 3 sampled (quick) / exhaustive (thorough), random shapes with large lower bounds; for each shape abs_index on every tuple with components in lb-1..ub+1 (all in- and out-of-range tuples on and one beyond every face), a distinct value written through every in-bounds tuple and everything read back; fix_length on all strings over {a, blank, NUL} up to length 4/5 x all lengths. Program level: generated DIM/write/read/LBOUND/UBOUND programs over all five numeric element types with an out-of-range access in every second one, records with nested records and arrays of records with case-varied field names, STRING * n variables/fields/elements assigned from literals, through a by-reference parameter, and from fixed-length variables/fields/elements of another length, ordinary strings and concatenations; expected output computed by an independent reference in the harness. Non-trivial = shape with rank >= 2 and more than one element, string length differs from target, every program; distinct by text.",
+        "unit level: every shape of rank 1-2 with bounds in -2..2 (quick) / -2..3 (thorough), rank 3 sampled (quick) / exhaustive (thorough), random shapes with large lower bounds; for each shape abs_index on every tuple with components in lb-1..ub+1 (all in- and out-of-range tuples on and one beyond every face), a distinct value written through every in-bounds tuple and everything read back; fix_length on all strings over {a, blank, NUL} up to length 4/5 x all lengths. Program level: generated DIM/write/read/LBOUND/UBOUND programs over all five numeric element types with an out-of-range access in every second one, records with nested records and arrays of records with case-varied field names, STRING * n variables/fields/elements assigned from literals, through a by-reference parameter, and from fixed-length variables/fields/elements of another length, ordinary strings and concatenations; REDIM with an element type (numbers, strings, STRING * n), writes, a second REDIM with or without the AS clause, defaults, new bounds, padding and the first subscript beyond them; expected output computed by an independent reference in the harness. Non-trivial = shape with rank >= 2 and more than one element, string length differs from target, every program; distinct by text.",
     );
 }
